@@ -41,21 +41,28 @@ package modfile
 //@ spec macro STMT_OK(e Expr) bool =
 //@     (ISLINE(e) ==> ifaceptr(e) != 0 && !ifaceptr(e, "*Line").InBlock)
 //@     && (ISBLOCK(e) ==> ifaceptr(e) != 0 && (forall j int :: 0 <= j && j < len(ifaceptr(e, "*LineBlock").Line) ==> ifaceptr(e, "*LineBlock").Line[j] != nil))
+//@ # concatenation onto a capacity-limited slice: x's elements followed by y's, x itself untouched
 //@ func commentsAdd
 //@   allocates
-//@   modifies []Comment
-//@   trusted "append onto a capacity-limited slice: result is a fresh slice; contents not specified here"
+//@   ensures [C08] concatenation: len(result) == len(x) + len(y) && (forall i int {result[i]} :: 0 <= i && i < len(x) ==> result[i] == x[i]) && (forall j int {y[j]} :: 0 <= j && j < len(y) ==> result[len(x) + j] == y[j])
+//@   ensures len(y) > 0 ==> fresharr(result)
+//@   ensures len(y) == 0 ==> samearr(result, x) && off(result) == off(x) || (len(x) == 0 && len(result) == 0)
 //@   props C15 C08 C16
 //@ func stringsAdd
 //@   allocates
-//@   modifies []string
-//@   trusted "append onto a capacity-limited slice: result is a fresh slice; contents not specified here"
+//@   ensures [C08] concatenation: len(result) == len(x) + len(y) && (forall i int {result[i]} :: 0 <= i && i < len(x) ==> result[i] == x[i]) && (forall j int {y[j]} :: 0 <= j && j < len(y) ==> result[len(x) + j] == y[j])
+//@   ensures len(y) > 0 ==> fresharr(result)
 //@   props C15 C08 C16
 //@ func (*FileSyntax).Cleanup
 //@   requires x != nil && (forall k int :: 0 <= k && k < len(x.Stmt) ==> STMT_OK(x.Stmt[k]))
 //@   modifies FileSyntax.Stmt, []Expr, LineBlock.Line, []*Line, Line.Token, Line.InBlock, Comments.Before, Comments.Suffix, Comments.After, Line.Start, Line.End, []string, []Comment, ghost.SORTED
 //@   allocates
 //@   ensures [C15, C08] top_lines_unblocked: forall k int :: 0 <= k && k < len(x.Stmt) ==> STMT_OK(x.Stmt[k])
+//@   # a line that survives alone in its block takes over the block's comments in addition to its own: block's
+//@   # leading comments first, the line's own before them never dropped; likewise suffix and trailing comments
+//@   call commentsAdd site 0 requires [C08] collapsed_line_keeps_leading_comments: arg_x == stmt.Before && arg_y == stmt.Line[0].Before
+//@   call commentsAdd site 1 requires [C08] collapsed_line_keeps_suffix_comments: arg_x == stmt.Line[0].Suffix && arg_y == stmt.Suffix
+//@   call commentsAdd site 2 requires [C08] collapsed_line_keeps_trailing_comments: arg_x == stmt.Line[0].After && arg_y == stmt.After
 //@   loop 0:
 //@     invariant 0 - 1 <= @idx && @idx < len(x.Stmt) && 0 <= w && w <= @idx + 1 && x.Stmt == pre(x.Stmt)
 //@     invariant forall k int :: 0 <= k && k < len(x.Stmt) ==> STMT_OK(x.Stmt[k])
@@ -420,6 +427,7 @@ package modfile
 //@ spec macro USE_LINES_DISTINCT(f *WorkFile) bool =
 //@     forall i int, j int :: 0 <= i && i < j && j < len(f.Use) && f.Use[i].Path != "" && f.Use[j].Path != "" ==> f.Use[i].Syntax != f.Use[j].Syntax
 //@ func (*WorkFile).AddUse
+//@   call (*Line).markRemoved requires [C08, C15, C16] removed_entry_still_has_its_line: arg_line != nil
 //@   requires f != nil && f.Syntax != nil && USE_NONNIL(f) && USE_LINES_DISTINCT(f) && diskPath != ""
 //@   modifies WorkFile.Use, []*Use, Use.Path, Use.ModulePath, Use.Syntax, Line.Token, Comments.Suffix
 //@   modifies FileSyntax.Stmt, []Expr, LineBlock.Line, LineBlock.Token, []*Line, Line.InBlock, ghost.SORTED
@@ -1050,6 +1058,9 @@ package modfile
 //@   ensures [C16, C08] entry_version: r.Mod.Version == v && r.Mod.Path == old(r.Mod.Path) && r.Syntax == old(r.Syntax) && r.Indirect == old(r.Indirect)
 //@   ensures [C16, C08] line_version: len(r.Syntax.Token) == old(len(r.Syntax.Token)) && (r.Syntax.InBlock && len(r.Syntax.Token) >= 2 ==> r.Syntax.Token[1] == v) && (!r.Syntax.InBlock && len(r.Syntax.Token) >= 3 ==> r.Syntax.Token[2] == v)
 //@   ensures forall q *Require {q.Mod.Version} :: q != r ==> q.Mod.Version == old(q.Mod.Version)
+//@   # leading comments survive: the only thing ever dropped is a lone blank line before a line inside a block
+//@   ensures [C16, C08] leading_comments_kept: r.Syntax.Comments.Before == old(r.Syntax.Comments.Before) || (old(len(r.Syntax.Comments.Before)) == 1 && old(len(r.Syntax.Comments.Before[0].Token)) == 0 && old(r.Syntax.InBlock) && len(r.Syntax.Comments.Before) == 0)
+//@   ensures forall l *Line {l.Comments.Before} :: l != r.Syntax ==> l.Comments.Before == old(l.Comments.Before)
 //@   props C16 C08
 
 //@ func (*Require).markRemoved
